@@ -719,7 +719,8 @@ def gen_script(rng):
         if rng.random() < 0.55:
             b = dict(rng.choice(specs))          # same matcher, maybe another kind: two waiters for one message
             if rng.random() < 0.6:
-                k = rng.choice(['raw_s', 'wait_s', 'exec', 'reg']) if b['conn'] == 'S' else rng.choice(['raw_p', 'wait_p', 'exec', 'reg'])
+                k = (rng.choice(['raw_s', 'wait_s', 'exec', 'reg']) if b['conn'] == 'S' else
+                     rng.choice(['raw_p', 'wait_p', 'exec', 'reg']) if b['conn'] == 'P' else rng.choice(['exec', 'reg']))
                 if k in ('raw_p', 'wait_p') and b['peer'] is None:
                     b['peer'] = 1
                 if k in ('raw_s', 'wait_s'):
@@ -863,7 +864,7 @@ def run(run: Run):
 
     for s in directed_scripts():
         do(s, 'directed')
-    n = 260 if run.tier == 'quick' else 3000
+    n = 260 if run.tier == "quick" else 2000
     for _ in range(n):
         do(gen_script(run.rng), 'random')
 
